@@ -711,6 +711,11 @@ func (r *Run) fsKeyConflict(bucket, key string) (sure, maybe bool) {
 func (r *Run) opPut(op *Op) {
 	ent := r.entityFor(op)
 	var resp *Resp
+	sas := op.Form && strings.HasPrefix(op.Status, "sas:")
+	var keyBefore *keySnap
+	if sas && r.bucket(op.B) != nil {
+		keyBefore = r.observeKey(op.B, op.Key)
+	}
 	if op.Form {
 		resp = r.send(r.formRequest(op, ent.Body), op.Faults, r.frag(op))
 	} else {
@@ -746,6 +751,15 @@ func (r *Run) opPut(op *Op) {
 			return
 		}
 	}
+	if sas && !resp.OK() && keyBefore != nil && !r.me().faulted {
+		// the server may know the field and refuse a value it does not like:
+		// then the upload did not happen
+		if after := r.observeKey(op.B, op.Key); *after != *keyBefore {
+			r.fail("read.content", fmt.Sprintf("a form upload that was refused (success_action_status=%s) changed the stored object %s", op.Status[4:], r.bctx()), keyBefore.String(), after.String())
+		}
+		r.probe("form upload refused over its success_action_status: nothing stored")
+		return
+	}
 	if !resp.OK() {
 		cl := "read.content"
 		if len(op.Chunks) > 0 {
@@ -753,7 +767,7 @@ func (r *Run) opPut(op *Op) {
 		}
 		r.fail(cl, fmt.Sprintf("an honest upload is refused (%s) %s", uploadKind(op), r.bctx()), "2xx", resp.String()+" "+resp.Msg)
 	}
-	if et := resp.Header.Get("ETag"); et != etagOf(ent) {
+	if et := resp.Header.Get("ETag"); et != etagOf(ent) && !(sas && et == "") {
 		r.fail("read.content", fmt.Sprintf("upload response ETag is not the quoted MD5 of the uploaded bytes (%s) %s", uploadKind(op), r.bctx()), etagOf(ent), et)
 	}
 	v := r.M.Put(b, op.Key, ent)
@@ -781,6 +795,10 @@ func (r *Run) formRequest(op *Op, body []byte) *simnet.Request {
 		fmt.Fprintf(&b, "--%s\r\nContent-Disposition: form-data; name=%q\r\n\r\n%s\r\n", boundary, name, val)
 	}
 	field("key", op.Key)
+	if strings.HasPrefix(op.Status, "sas:") {
+		// a policy field few clients send
+		field("success_action_status", op.Status[4:])
+	}
 	for _, kv := range sortedMeta(op.Meta) {
 		field(kv[0], kv[1])
 	}
@@ -817,6 +835,19 @@ func (r *Run) opRead(op *Op) {
 		method = "HEAD"
 	}
 	q, id := r.verQuery(op.B, op.Key, op.Ver)
+	overrides := op.Status == "overrides"
+	if overrides {
+		// S3's response header overrides: they shape this one answer (if the
+		// server knows them at all) and never what is stored
+		if q == nil {
+			q = url.Values{}
+		}
+		q.Set("response-content-type", "application/x-overridden")
+		q.Set("response-content-disposition", "inline; filename=overridden")
+		q.Set("response-cache-control", "no-cache")
+		q.Set("response-content-encoding", "identity")
+		r.probe("read with response header overrides")
+	}
 	resp := r.simple(method, target(op.B, op.Key, q), op)
 	r.noPanic(resp, method+" object")
 	r.logf("  -> %s len=%d", resp.String(), len(resp.Body))
@@ -836,7 +867,7 @@ func (r *Run) opRead(op *Op) {
 		return
 	}
 	if id != "" {
-		r.checkVersionRead(resp, b, k, id, head)
+		r.checkVersionRead(resp, b, k, id, head, overrides)
 		return
 	}
 	e := k.Live()
@@ -851,10 +882,28 @@ func (r *Run) opRead(op *Op) {
 	if b.Versioning != "" {
 		cl = "version.current"
 	}
+	if overrides {
+		e = withoutOverridable(e)
+	}
 	r.checkEntity(resp, e, head, cl, "")
 }
 
-func (r *Run) checkVersionRead(resp *Resp, b *model.Bucket, k *model.Key, id string, head bool) {
+// withoutOverridable is the entity minus the headers a response-* query
+// parameter may replace in one answer.
+func withoutOverridable(e *model.Entity) *model.Entity {
+	cp := *e
+	cp.Meta = map[string]string{}
+	for k, v := range e.Meta {
+		switch strings.ToLower(k) {
+		case "content-type", "content-disposition", "cache-control", "content-encoding", "content-language", "expires":
+		default:
+			cp.Meta[k] = v
+		}
+	}
+	return &cp
+}
+
+func (r *Run) checkVersionRead(resp *Resp, b *model.Bucket, k *model.Key, id string, head bool, overrides bool) {
 	verb := "GET"
 	if head {
 		verb = "HEAD"
@@ -880,7 +929,11 @@ func (r *Run) checkVersionRead(resp *Resp, b *model.Bucket, k *model.Key, id str
 		r.fail("version.read", verb+" ?versionId of a delete marker succeeds", "4xx", resp.String())
 	}
 	r.probe("read of a non-current version by id")
-	r.checkEntity(resp, v.Ent, head, "version.read", "?versionId=<known version>")
+	ent := v.Ent
+	if overrides {
+		ent = withoutOverridable(ent)
+	}
+	r.checkEntity(resp, ent, head, "version.read", "?versionId=<known version>")
 }
 
 func (r *Run) opDelete(op *Op) {
